@@ -114,6 +114,9 @@ def setup_worker(ctx):
 
 
 def finish_worker(ctx):
+    ctx.count('check.parse-again-after-changing-first-result',
+              PARSED_AGAIN[0])
+    PARSED_AGAIN[0] = 0
     ctx.state['reach'].flush(ctx)
     ctx.state['reach'].stop()
 
@@ -509,7 +512,42 @@ def roundtrip(p, fmt, tags, header=False):
                 'what an untyped URI carries (exact names / string values / '
                 'numeric values)' % fmt,
                 {'uri': u, 'parsed': short(repr(q), 1200)})
+    # every parse gives a path of its own: what the caller does to an earlier
+    # result must not show in a later parse of the same text
+    nested = isinstance(q, CIMInstanceName) and any(
+        isinstance(v, CIMInstanceName) for v in q.keybindings.values())
+    if nested or len(u) % 4 == 0:
+        scribble(q)
+        try:
+            q2 = cls.from_wbem_uri(u)
+            f2 = lfp(q2, lower)
+        except CaseTimeout:
+            raise
+        except Exception as exc:  # pylint: disable=broad-except
+            return ('exc', exc, 'parse-again', u)
+        PARSED_AGAIN[0] += 1
+        if f2 != fq:
+            return ('uri.parse.later-result-depends-on-earlier-result.%s'
+                    % component_of_difference(fq, f2),
+                    'the same %s URI text parsed a second time gives another '
+                    'path after the first result was changed in place' % fmt,
+                    {'uri': u, 'second': short(repr(q2), 1200)})
     return None
+
+
+PARSED_AGAIN = [0]
+
+
+def scribble(q, depth=0):
+    """Change every part of a parsed path in place."""
+    if isinstance(q, CIMInstanceName):
+        for v in list(q.keybindings.values()):
+            if isinstance(v, CIMInstanceName) and depth < 6:
+                scribble(v, depth + 1)
+        q.keybindings['ScribbledByHarness'] = 1
+    q.host = 'scribbled.example'
+    q.namespace = 'scribbled/ns'
+    q.classname = 'Scribbled'
 
 
 FEATURE_KEYS = {
